@@ -115,6 +115,11 @@ def build(spec):
             elif start == "eigvec" and evs[b] is not None:
                 # first start vector is an eigenvector of the matrix (Krylov dimension 1)
                 v[:, 0] = evs[b][:, 0] * 1.7
+            elif start == "mixed-eig":
+                # chosen (batch member, start vector) pairs start in an eigenvector of their member; all others are generic
+                for (bb, jj) in spec.get("eig_at", []):
+                    if bb == b and evs[b] is not None and jj < nvec:
+                        v[:, jj] = evs[b][:, (bb + 2 * jj + 1) % n] * 1.7
             elif start == "scaled":
                 v = v * torch.tensor([1e-3, 1e3, 1.0][:nvec] + [1.0] * max(0, nvec - 3), dtype=F64)
             cols.append(v)
